@@ -20,6 +20,7 @@ abbrev OptStr := Option Str
 
 structure TractObj where
   uid : Nat
+  trsKey : Str := []             -- the string the `trs` setter was given (cache key)
   trs : TRS.TrsDict
   desc : Str
   origDesc : OptStr
@@ -112,11 +113,12 @@ def tractInitAttrs (c : Cfg) (parseQQ : Option Bool) : Attrs :=
 
 /-- `Tract(desc, trs, config, parse_qq, source, orig_desc, orig_index)` for str/None `trs` -/
 def tractInit (uid : Nat) (desc : Str) (trs : Option Str) (config : CfgArg) (parseQQ : Option Bool)
-    (source : OptStr) (origDesc : OptStr) (origIndex : Int) : Except PyErr TractObj :=
+    (source : OptStr) (origDesc : OptStr) (origIndex : Int)
+    (look : Option Str → TRS.TrsDict := TRS.trsToDict) : Except PyErr TractObj :=
   match resolveCfgArg config with
   | .error e => .error e
   | .ok c =>
-    tractInitCore { uid := uid, trs := TRS.trsToDict trs, desc := desc, origDesc := origDesc, origIndex := origIndex,
+    tractInitCore { uid := uid, trsKey := TRS.normIn trs, trs := look trs, desc := desc, origDesc := origDesc, origIndex := origIndex,
                     source := source, attrs := tractInitAttrs c parseQQ, config := c, ppDesc := desc }
 
 /-! ### PLSSParser -/
@@ -170,21 +172,23 @@ def tractSpecs (cleanUp : Bool) : List Component → Except PyErr (List (Str × 
       | .ok more => .ok (secs.map (fun sec => (desc, optStrPy comp.twprge ++ sec, comp.secWithin)) ++ more)
 
 /-- build the Tract objects, numbering them in creation order from `idx` -/
-def buildTracts (uid0 : Nat) (handedDown : Str) (parseQQ : Bool) (source : OptStr) (text : Str) :
+def buildTracts (uid0 : Nat) (handedDown : Str) (parseQQ : Bool) (source : OptStr) (text : Str)
+    (look : Option Str → TRS.TrsDict) :
     Nat → List (Str × Str × Bool) → Except PyErr (List TractObj)
   | _, [] => .ok []
   | idx, (desc, trs, _) :: rest =>
-    match tractInit (uid0 + idx) desc (some trs) (.text handedDown) (some parseQQ) source (some text) idx with
+    match tractInit (uid0 + idx) desc (some trs) (.text handedDown) (some parseQQ) source (some text) idx look with
     | .error e => .error e
     | .ok t =>
-      match buildTracts uid0 handedDown parseQQ source text (idx + 1) rest with
+      match buildTracts uid0 handedDown parseQQ source text look (idx + 1) rest with
       | .error e => .error e
       | .ok ts => .ok (t :: ts)
 
 def secWithinIndexes (specs : List (Str × Str × Bool)) : List Nat :=
   (List.range specs.length).filter (fun i => match specs[i]? with | some s => s.2.2 | none => false)
 
-def plssParser (mc : MC) (uid0 : Nat) (text : Str) (a : ParserArgs) : Except PyErr ParserOut := do
+def plssParser (mc : MC) (uid0 : Nat) (text : Str) (a : ParserArgs)
+    (look : Option Str → TRS.TrsDict := TRS.trsToDict) : Except PyErr ParserOut := do
   -- handed-down config
   let hd0 : Str := if a.parseQQ then a.handedDownConfig ++ S ",parse_qq" else a.handedDownConfig
   let c0 ← Config.ofText hd0
@@ -215,7 +219,7 @@ def plssParser (mc : MC) (uid0 : Nat) (text : Str) (a : ParserArgs) : Except PyE
     parent := { parent with comps := cs, unused := un }
   -- construct_tracts
   let specs ← tractSpecs cleanUp parent.comps
-  let mut tracts ← buildTracts uid0 handedDown a.parseQQ a.source text 0 specs
+  let mut tracts ← buildTracts uid0 handedDown a.parseQQ a.source text look 0 specs
   let next := specs.length
   let secWithinIdx := secWithinIndexes specs
   fl := parent.fl
@@ -308,10 +312,11 @@ def effectiveDesc (d : DescObj) (kw : DescKw) : ParserArgs :=
     handedDownConfig := Config.toText d.config,
     source := d.source }
 
-def descParse (mc : MC) (uid0 : Nat) (d : DescObj) (kw : DescKw) (commit : Bool) :
+def descParse (mc : MC) (uid0 : Nat) (d : DescObj) (kw : DescKw) (commit : Bool)
+    (look : Option Str → TRS.TrsDict := TRS.trsToDict) :
     Except PyErr (DescObj × ParserOut) := do
   let args := effectiveDesc d kw
-  let out ← plssParser mc uid0 d.origDesc args
+  let out ← plssParser mc uid0 d.origDesc args look
   if commit then
     return ({ d with tracts := out.tracts, fl := out.fl, currentLayout := some out.layout, ppDesc := out.text,
                      diverged := d.diverged || out.diverged }, out)
@@ -327,7 +332,8 @@ def descPreprocess (mc : MC) (d : DescObj) (defNS defEW : Option Str) (ocr : Opt
 
 /-- `PLSSDesc(raw, layout, config, parse_qq, source, wait_to_parse)` for a str `raw` -/
 def descInit (mc : MC) (uid0 : Nat) (raw : Str) (layout : Option Str) (config : CfgArg) (parseQQ : Option Bool)
-    (source : OptStr) (waitToParse : Option Bool) : Except PyErr (DescObj × Nat) := do
+    (source : OptStr) (waitToParse : Option Bool) (look : Option Str → TRS.TrsDict := TRS.trsToDict) :
+    Except PyErr (DescObj × Nat) := do
   let c ← resolveCfgArg config
   let attrs := applyConfig descDefaults Gen.PLSSDESC_ATTRIBUTES c
   let attrs := match parseQQ with | some b => attrs.set "parse_qq" (.b b) | none => attrs
@@ -336,7 +342,7 @@ def descInit (mc : MC) (uid0 : Nat) (raw : Str) (layout : Option Str) (config : 
   let d : DescObj := { origDesc := raw, source := source, attrs := attrs, config := c, ppDesc := raw,
                        layoutSpecified := (getOptS attrs "layout").isSome }
   if !getB attrs "wait_to_parse" then
-    let (d', out) ← descParse mc uid0 d {} true
+    let (d', out) ← descParse mc uid0 d {} true look
     return (d', out.nextUid)
   else
     let (d', _) ← descPreprocess mc d none none none true
